@@ -138,7 +138,7 @@ def run(REG, tier, seed, jobs):
     partial = [c for c in comps] + [f'{a}.{b}' for a in comps for b in comps] + [f'{a}.{b}.{c}' for a in comps for b in comps for c in comps]
     ops = ['', '^', '~', '=', '<', '<=', '>', '>=']
     reqs = ['*', ''] + [o + p for o in ops for p in partial] + [f'{a}.*' for a in comps] + [f'{a}.{b}.*' for a in comps for b in comps] \
-        + ['>=1.0.0-a', '>=0.1, <2', '>1.0.0-a, <1.0.0', '^1.2.0-a', '~1', '>= 1, <= 1.1']
+        + ['>=1.0.0-a', '>=0.1, <2', '>1.0.0-a, <1.0.0', '^1.2.0-a', '~1', '>= 1, <= 1.1', '<=1.0.0-a', '<=1.2.0-b', '<= 1.2.0-a', '>=0.1, <=1.0.0-a', 'x', 'X', '1.x', '1.X', '1.2.x', '0.X', '2.1.X', '>=1.1, 1.x']
     vers = [f'{a}.{b}.{c}' for a in ['0', '1', '2', '3'] for b in ['0', '1', '2', '3'] for c in ['0', '1', '2', '3']] + ['1.0.0-a', '1.2.0-a', '1.2.0-b', '0.0.0-a', '1.0.0+b', '1.0.0+b-c']
     pairs = list(itertools.product(reqs, vers))
     ev, nt, fails = pmap(_acc_chunk, chunked(iter(pairs), 2000), jobs)
@@ -264,8 +264,21 @@ def run_cfg(tier, seed, jobs):
     n = 5 if tier == 'quick' else 7
     words = ['a', 'n', 'y', 'all', 'any', 'not', ' ', '"', '(', ')', ',', '=']
     gen = itertools.chain(strings(alpha, n), (''.join(t) for k in range(1, (6 if tier == 'quick' else 7)) for t in itertools.product(words, repeat=k)))
+    # the same predicates with every kind of white space between their tokens
+    tmpl = [['all', '(', 'a', ',', 'n', ')'], ['any', '(', 'a', ',', 'y', ')'], ['not', '(', 'a', ')'], ['a', '=', '"a"'], ['all', '(', 'a', '=', '"n"', ',', 'not', '(', 'n', ')', ')'],
+            ['any', '(', ')'], ['all', '(', ')'], ['a'], ['not', '(', 'any', '(', 'n', ',', 'y', '=', '"y"', ')', ')']]
+    wss = ['', ' ', '\t', '\n', '\r\n', ' \t ', '\f', '\v', '  ']
+    spaced = []
+    for t in tmpl:
+        for w in wss:
+            spaced.append(w.join(t))
+            spaced.append(w + (w or ' ').join(t) + w)
+            for k in range(len(t) - 1):
+                spaced.append(''.join(t[:k + 1]) + w + ''.join(t[k + 1:]) if w else ''.join(t))
+    # identifiers glued by removing the separator are different predicates; the reference lexer decides what each text means
+    gen = itertools.chain(gen, iter(sorted(set(spaced))))
     ev, nt, fails = pmap(_cfg_chunk, chunked(gen, 20000), jobs)
-    return {'name': 'C20/bounded/eval_cfg==reference', 'function': 'eval_cfg', 'bound': f'all bodies of <= {n} characters over {alpha!r} and all bodies of <= {5 if tier == "quick" else 6} words over {words!r}, x 8 configurations (several with the same names and different values, evaluated one after the other in one process)',
+    return {'name': 'C20/bounded/eval_cfg==reference', 'function': 'eval_cfg', 'bound': f'all bodies of <= {n} characters over {alpha!r} and all bodies of <= {5 if tier == "quick" else 6} words over {words!r}, plus 9 predicates with blank / tab / newline / CRLF / form feed / vertical tab at every token boundary, x 8 configurations (several with the same names and different values, evaluated one after the other in one process)',
             'evaluations': ev, 'distinct_nontrivial': nt, 'rule': 'non-trivial: well-formed per the reference grammar', 'exhaustive': True, 'failures': fails}
 
 
